@@ -2,8 +2,10 @@ CONSTANTS
   NV = 3
   MaxE = 4
   Lens = {1, 2}
+  TermNs = {0, 2}
+  Lean = TRUE
 INIT Init
 NEXT Next
-INVARIANTS ContractHolds AtEnd
+INVARIANTS ContractHolds AtEnd OverK
 PROPERTIES Terminates
 CHECK_DEADLOCK FALSE
